@@ -19,6 +19,22 @@ fresh object + judge_X(am, system, snapshot, ...), so that the same judge serves
     written by hand or the separate prop_name / table_name / shape / unit / dtype lists, with whole lists left out and
     None entries in unit ("no conversion") and dtype ("infer"), on the writer's and on the loader's side independently
     (gens_c08.describe).
+
+Round 4 (after the seeded regression C08-d1 was missed: the table writer remembered the conversion factor of a unit string
+from the first time it was written in the process, so a dump after unitconvert.reset_units() used a stale factor): the
+process-global WORKING-UNIT CONFIGURATION is a dimension of every round-trip clause and of the history clause.  About half of
+the cases carry a unit plan {'pre', 'W', 'R'} (gens_c08.unit_plans): the snapshot numbers are angstrom / ps / amu / eV / e
+numbers and the system is that physical system expressed in the working units (factors: products of numericalunits
+attributes); the judged dump runs after reset_units(W) (named length / mass / time / energy / charge units, an integer seed,
+'SI'), in two thirds of the plans after the SAME dump + load was run and judged under `pre` (the default or another
+configuration) in the same process, and where the file itself fixes the unit of every dimensional column (data file and dump
+file with a LAMMPS unit style other than lj; dump file / table whose dimensional columns all have an explicit unit or are
+box-relative) the loads run under a third configuration R and must return the physical system in R's units.  The history
+clause runs whole histories under W (after the first dump of the history on a fresh object under `pre`) and has a 'units'
+step that changes the configuration in the middle and re-expresses the object in the new units through box_set(scale=True) +
+atoms_prop(value=) or by re-building it.  All tolerances are relative to the working-unit magnitudes (printed precision in
+file units times the size of the file unit under the configuration in force at load time); the default working units are
+restored in a finally block of every oracle (the cases of one shard share a process).
 """
 import functools
 import io
@@ -47,10 +63,23 @@ RULE = ("systems: LAMMPS-compatible cells (orthogonal/triclinic, any origin; rot
         "history: 2-5 steps on one object drawn from data/dump/table/POSCAR dumps (safecopy True in a quarter of the data "
         "dumps), box_set(vects | avect,bvect,cvect, scale on/off) or box.vects=, positions assigned three ways, pbc, reads of "
         "derived quantities; non-trivial: >= 2 dumps and a dump that needs box-relative coordinates after an in-place "
-        "wrap or a modification")
+        "wrap or a modification.  Working units: about half of the round-trip and history cases run under a unit plan - "
+        "the physical system (angstrom/ps/amu/eV/e numbers) expressed in the working units set by reset_units(named units | "
+        "integer seed | 'SI'), the judged dump + load preceded in two thirds of them by the same dump + load under the "
+        "default or another configuration in the same process, the loads under yet another configuration where the file "
+        "fixes the unit of every dimensional column; histories with a change of configuration in the middle")
 ASSUMPTIONS = ["numpy/pandas number parsing and printf formatting are correct",
                "atomman.unitconvert (judged by C09) and the lammps.style unit table are used only to scale the "
                "tolerance of fixed-point formats (half a printed digit in file units), never for expected values",
+               "under a unit plan the expected numbers are the snapshot times my own factors built from numericalunits "
+               "attributes (nu.angstrom, nu.ps, nu.amu, nu.eV, nu.e ...): numericalunits and the way unitconvert.reset_units "
+               "applies a configuration are trusted (C09 judges them); named choices always contain a length unit and never "
+               "all of length+mass+time+energy",
+               "numbers that a file carries in working units (POSCAR, table columns without unit, `units lj`) are written with "
+               "the exponent format of the same digit count when one angstrom is outside [0.05, 20] working units: a fixed-"
+               "point format cannot represent a 1e-10 cell, which is the caller's choice of format, not a round-trip failure",
+               "loads under another configuration than the dump are only judged where every dimensional column has a unit in "
+               "the file; a column written with unit None holds working-unit numbers by the docstrings and is kept out",
                "styles with a density column are not generated under `units electron` (LAMMPS defines no density "
                "unit there)",
                "the 0.001 margin by which System.wrap extends non-periodic boundaries is not asserted: along an "
@@ -67,10 +96,13 @@ LEVEL_TEXT = ("generated systems written by atomman and read back in all four te
               "comments, blank lines and string/path/stream input must give the identical system; mutilated data "
               "files must raise FileFormatError; table/dump-file columns also described through explicit lists (left-out "
               "lists, None entries) and hand-written prop_info; histories of 2-5 dumps/modifications on one object "
-              "(safecopy on and off) with every dump judged the same way")
+              "(safecopy on and off) with every dump judged the same way; half of the cases under other process-global working "
+              "units (reset_units named / seeded / SI) after an earlier dump + load under the default or another "
+              "configuration, loads under a different configuration where the file fixes the units")
 TECHNIQUE = ("round trip against an independent numpy snapshot with printed-precision tolerances; metamorphic "
              "text perturbation (line order, comments, blank lines, input source); negative cases by section deletion; "
-             "model-based object histories")
+             "model-based object histories; working-unit configurations as process history (same oracles after reset_units, "
+             "dump and load under different configurations)")
 WALL = {'quick': 60, 'thorough': 540}
 
 EPS = 2.3e-16
@@ -1789,32 +1821,44 @@ def oracle_reject(case):
 # ============================================================================= clauses
 
 CLAUSES = [
-    Clause('data_file', oracle_data, data_cases, quick=2000, thorough=40000,
+    Clause('data_file', oracle_data, data_cases, quick=1700, thorough=34000,
            min_share=_Guards({'nt': 0.08, 'imageflags': 0.1, 'shuffled': 0.02, 'hybrid': 0.05, 'extended': 0.2,
-                              'velocities': 0.14, 'comments_blank': 0.11, 'multitype': 0.06}, 0),
+                              'velocities': 0.14, 'comments_blank': 0.11, 'multitype': 0.06,
+                              'units': 0.22, 'units_pre': 0.15, 'units_pre_default': 0.12, 'units_pre_other': 0.02,
+                              'units_cross': 0.07, 'units_seed': 0.04, 'units_named': 0.15, 'units_A_lt1e-3': 0.08,
+                              'units_A_ge1e-3': 0.08}, 0),
            desc="load('atom_data', dump('atom_data')): cell after the documented wrap, types, positions with image flags "
                 "re-applied, every style column and the Velocities section, all styles/units/formats; shuffled lines, "
                 "comments, blank lines, string/path/stream give the identical system"),
-    Clause('dump_file', oracle_dump, dump_cases, quick=1800, thorough=36000,
-           min_share=_Guards({'nt': 0.09, 'shuffled': 0.08, 'with_prop_info': 0.16, 'own_ids': 0.09, 'scaled_cols': 0.05,
+    Clause('dump_file', oracle_dump, dump_cases, quick=1550, thorough=31000,
+           min_share=_Guards({'units': 0.22, 'units_pre': 0.15, 'units_pre_default': 0.12, 'units_pre_other': 0.02,
+                              'units_cross': 0.07, 'units_seed': 0.04, 'units_named': 0.15, 'units_A_lt1e-3': 0.08,
+                              'units_A_ge1e-3': 0.08, 'nt': 0.09, 'shuffled': 0.08, 'with_prop_info': 0.16, 'own_ids': 0.09, 'scaled_cols': 0.05,
                               'unit_dim_shape': 0.23, 'one_column_shape': 0.15, 'explicit_columns': 0.17,
                               'load_via_lists': 0.09, 'load_via_prop_info': 0.035, 'dump_via_prop_info': 0.04,
                               'none_unit_std_prop': 0.05, 'explicit_dtype': 0.15}, 0),
            desc="load('atom_dump', dump('atom_dump')): cell from bounding box, pbc flags, ids, types, pos/spos/upos/supos, "
                 "standard columns with units and free properties with their shape through the returned prop_info"),
-    Clause('table', oracle_table, table_cases, quick=1600, thorough=30000,
-           min_share=_Guards({'nt': 0.2, 'rank2plus': 0.2, 'unit_conv': 0.14, 'header': 0.15, 'shuffled': 0.04,
+    Clause('table', oracle_table, table_cases, quick=1400, thorough=26000,
+           min_share=_Guards({'units': 0.22, 'units_pre': 0.15, 'units_pre_default': 0.12, 'units_pre_other': 0.02,
+                              'units_cross': 0.04, 'units_seed': 0.04, 'units_named': 0.15, 'units_A_lt1e-3': 0.08,
+                              'units_A_ge1e-3': 0.08, 'nt': 0.2, 'rank2plus': 0.2, 'unit_conv': 0.14, 'header': 0.15, 'shuffled': 0.04,
                               'unit_dim_shape': 0.26, 'one_column_shape': 0.18, 'explicit_columns': 0.18,
                               'load_via_lists': 0.09, 'load_via_prop_info': 0.035, 'dump_via_prop_info': 0.055,
                               'mixed_none_units': 0.13}, 0),
            desc="load('table', dump('table'), prop_info=<returned>): every property with shape, unit/scaled conversion "
                 "undone, header line, comments, blank lines, id column"),
-    Clause('poscar', oracle_poscar, poscar_cases, quick=1600, thorough=36000,
-           min_share=_Guards({'nt': 0.2, 'cartesian': 0.25, 'scaled_box': 0.3, 'type_gap': 0.15, 'symbols_line': 0.2, 'multitype': 0.14}, 1),
+    Clause('poscar', oracle_poscar, poscar_cases, quick=1400, thorough=31000,
+           min_share=_Guards({'units': 0.22, 'units_pre': 0.15, 'units_pre_default': 0.12, 'units_pre_other': 0.02,
+                              'units_seed': 0.04, 'units_named': 0.15, 'units_A_lt1e-3': 0.08, 'units_A_ge1e-3': 0.08,
+                              'nt': 0.2, 'cartesian': 0.25, 'scaled_box': 0.3, 'type_gap': 0.15, 'symbols_line': 0.2, 'multitype': 0.14}, 1),
            desc="load('poscar', dump('poscar')): cell (scale factor), types grouped, symbols line, positions as type-wise "
                 "multisets (direct: relative coordinates; Cartesian: up to the origin shift)"),
-    Clause('history', oracle_history, history_cases, quick=700, thorough=15000,
-           min_share=_Guards({'nt': 0.17, 'redump': 0.4, 'rel_after_inplace_wrap': 0.15, 'rel_after_inplace_extension': 0.13,
+    Clause('history', oracle_history, history_cases, quick=620, thorough=13000,
+           min_share=_Guards({'units': 0.22, 'units_pre': 0.15, 'units_pre_default': 0.12, 'units_pre_other': 0.02,
+                              'units_seed': 0.03, 'units_named': 0.15, 'units_A_lt1e-3': 0.07, 'units_step': 0.08,
+                              'units_step_setters': 0.04, 'units_step_rebuild': 0.03, 'redump_after_units_step': 0.06,
+                              'nt': 0.17, 'redump': 0.4, 'rel_after_inplace_wrap': 0.15, 'rel_after_inplace_extension': 0.13,
                               'rel_after_modification': 0.05, 'safecopy': 0.17, 'box_modified': 0.06, 'pos_modified': 0.06,
                               'explicit_columns': 0.14}, 0),
            desc="the same System object written repeatedly (data file with safecopy on/off, dump file, table, POSCAR) with "
